@@ -193,7 +193,7 @@ EXTRA = [
 
 def items(tier, seed):
     rng = random.Random(seed)
-    P = list(EXTRA) + list(progs.CORPUS)
+    P = list(EXTRA) + list(progs.CORPUS) + list(progs.VARBLOCK)
     d1 = [p for p, e in progs.typed(progs.depth1())]; rng.shuffle(d1)
     P += d1[:1200 if tier == 'quick' else len(d1)]
     d2 = list(progs.depth2(d1[:400] if tier == 'quick' else d1[:4000])); rng.shuffle(d2)
